@@ -115,4 +115,44 @@ theorem vacantEntry_vacant (bV : Nat) (ss : Slots) :
     simp [bumpAt_getElem, h1]
   | none => exact ⟨{ tok := { id := ss.length, ver := 0, sub := 0 }, occ := none }, by simp, rfl⟩
 
+theorem occupied_setOcc_roundtrip (ss : Slots) (i k : Nat) (s : Slot) (hs : ss[i]? = some s) (hv : s.occ = none) :
+    occupied (setOcc (setOcc ss i (some k)) i none) = occupied ss := by
+  induction ss generalizing i with
+  | nil => simp at hs
+  | cons x xs ih =>
+    cases i with
+    | zero =>
+      simp only [List.getElem?_cons_zero, Option.some.injEq] at hs
+      subst hs
+      simp [setOcc, occupied, List.filter, hv]
+    | succ i =>
+      simp only [List.getElem?_cons_succ] at hs
+      have := ih i hs
+      simp only [setOcc, occupied, List.filter] at this ⊢
+      split <;> simp_all
+
+theorem occupied_bumpAt (bV : Nat) (ss : Slots) (i : Nat) : occupied (bumpAt bV ss i) = occupied ss := by
+  induction ss generalizing i with
+  | nil => rfl
+  | cons x xs ih =>
+    cases i with
+    | zero => simp only [bumpAt, occupied, List.filter]; cases x.occ.isSome <;> simp
+    | succ i =>
+      have := ih i
+      simp only [bumpAt, occupied, List.filter] at this ⊢
+      split <;> simp_all
+
+/-- a failed insertion (slot handed out, then vacated) leaves the occupied count as it was -/
+theorem failed_insert_leaks_no_slot (bV : Nat) (ss : Slots) (k : Nat) :
+    let r := vacantEntry bV ss
+    occupied (setOcc (setOcc r.1 r.2 (some k)) r.2 none) = occupied ss := by
+  obtain ⟨s, h1, h2⟩ := vacantEntry_vacant bV ss
+  simp only
+  rw [occupied_setOcc_roundtrip _ _ k s h1 h2]
+  unfold vacantEntry
+  cases firstVacant ss with
+  | some i => exact occupied_bumpAt bV ss i
+  | none => simp [occupied, List.filter_append, List.filter]
+
+
 end Verif.Inv.Slots
